@@ -24,9 +24,9 @@ def gen_exec_validate(ctx, prop, prm, module="Val_Streams", gen="Gen_Streams", m
     return exec_validate(ctx, prop, req, module=module, mode=mode, min_lines=min_lines, drift=drift)
 
 
-def exec_validate(ctx, prop, req, module="Val_Streams", mode="text", min_lines=1500, drift=True):
+def exec_validate(ctx, prop, req, module="Val_Streams", mode="text", min_lines=1500, drift=True, **hk):
     obs = ctx.path("obs.ndjson")
-    h = vlib.harness(ctx, mode, req, obs)
+    h = vlib.harness(ctx, mode, req, obs, **hk)
     if h["rc"] != 0:
         # the child crashed or hung: that is data about the code under test (a panic is caught per call,
         # so this is an abort/stack overflow/timeout)
